@@ -97,7 +97,10 @@ def check_C14(tier):
                           "2*D*p < 2^53). non-trivial = dividend > 0 and at least 2 priorities; distinct by (fn, list, dividend, prefill)"
                           % (env["DIV_MAXN"], env["DIV_MAXD"], large_calls),
                      exhaustive=True, drift=len(drift), drift_samples=[(inv, line_of(calls, idx)) for inv, idx in drift[:3]],
-                     large_calls=large_calls)
+                     large_calls=large_calls,
+                     wrapped_sum_calls=int((re.search(r"wrapped_sum_calls=(\d+)", out) or [0, 0])[1]),
+                     wrapped_sum_note="lists whose priorities sum beyond the machine word (the sum wraps, for some to 0; also the list [0]): conservation and "
+                                      "'changes nothing else' only, big-integer oracle (seeded change C14-e)")
         for s in samples:
             v.sample(s)
         v.assumptions += ["TLC integers are 32 bit: calls with large magnitudes are decided by the same postcondition "
